@@ -26,10 +26,10 @@ FaultDocs ==
   \cup {Arr(<<u256, Null, f15>>), Arr(<<Arr(<<u1, sab>>), Obj(<< <<ka, Null>> >>)>>),
         Obj(<< <<kB, u1>>, <<ka, Arr(<<sE, f15>>)>> >>), Obj(<< <<kE, Obj(<< <<kab, Null>>, <<kb, sQuote>> >>)>> >>),
         Arr(<<sSmile, sE>>), Obj(<< <<kE, sE>> >>), Obj(<< <<kE, Null>>, <<kEb, True>> >>), Obj(<< <<ka, Null>>, <<kE, False>>, <<kEb, sa>> >>),
-        Obj(<< <<kSm, Null>>, <<kSmE, Null>> >>), Arr(<<True, False, Null, sEmpty>>), Arr(<<u65536, u2p32, im129>>)}
+        Obj(<< <<kSm, Null>>, <<kSmE, Null>> >>), Arr(<<u1, Str(Rep(64, 20))>>), Arr(<<Str(Rep(80, 17)), im1, Str(Rep(97, 36))>>), Arr(<<True, False, Null, sEmpty>>), Arr(<<u65536, u2p32, im129>>)}
 SmallDocs == {Null, u1, sab, Arr(<<>>), Obj(<<>>), Arr(<<u1>>), Obj(<< <<ka, Null>> >>), Arr(<<sa, u1>>)}
 
-ByteVals == {0, 1, 2, 3, 5, 16, 32, 48, 64, 80, 96, 112, 127, 128, 255}
+ByteVals == {0, 1, 2, 3, 5, 9, 16, 17, 32, 33, 48, 64, 80, 96, 112, 127, 128, 255}
 
 \* one fault applied to a byte string
 Truncate(b, k) == Sub(b, 1, k)
